@@ -96,4 +96,22 @@ example (env : Trans.Env) (sp : Trans.ServiceProvider) (h : sp.IDPMetadata = non
     Trans.GetSSOBindingLocation env sp "b" = .panic "nil dereference" := by
   simp [Trans.GetSSOBindingLocation, h]
 
+theorem GetArtifactBindingLocation_eq (env : Trans.Env) (sp : Trans.ServiceProvider) (md : Trans.EntityDescriptor) (b : String)
+    (h : sp.IDPMetadata = some md) :
+    Trans.GetArtifactBindingLocation env sp b =
+      .ok (match (md.IDPSSODescriptors.flatMap (·.ArtifactResolutionServices)).find? (fun e => e.Binding == b) with
+           | some e => e.Location
+           | none => "") := by
+  unfold Trans.GetArtifactBindingLocation
+  simp only [h, deref_some, Outcome.ok_bind', Outcome.pure_eq_ok]
+  simp only [inner_search _ (fun (e : Trans.Endpoint) => e.Binding == b) (·.Location), Outcome.ok_bind']
+  generalize hB : (fun (d : Trans.IDPSSODescriptor) (s : Option String × Unit) => _) = B
+  have hB' : B = fun d _ => Kdef (Option.map (·.Location) (List.find? (fun e => e.Binding == b) d.ArtifactResolutionServices)) := by
+    subst hB
+    funext d s
+    cases Option.map (fun (x : Trans.Endpoint) => x.Location) (List.find? (fun e => e.Binding == b) d.ArtifactResolutionServices) <;> rfl
+  rw [hB', outer_search md.IDPSSODescriptors (·.ArtifactResolutionServices) (fun e => e.Binding == b) (·.Location) Kdef (fun r => rfl) rfl]
+  simp only [Outcome.ok_bind']
+  cases List.find? (fun e => e.Binding == b) (md.IDPSSODescriptors.flatMap (·.ArtifactResolutionServices)) <;> rfl
+
 end SamlVerif.TransBinding
